@@ -61,7 +61,10 @@ RULE = ("run i < 588 is the i-th cell of the complete table 6 gate logics x 7 ex
         "draws the optional fields of the agents' ActionProteins (source_agent none/empty/own/other agent/foreign, payload "
         "str/None/dict/int, confidence, metadata), recording or raising on_block/on_permit observers, and 60 % of the "
         "prompt sets from twins that a weak request identity would merge (crc32 / adler32 collisions, equal head and tail, "
-        "anagrams, equal first 64 characters, non-ASCII- or digit-only differences, case / white-space twins)")
+        "anagrams, equal first 64 characters, non-ASCII- or digit-only differences, case / white-space twins), and what "
+        "each agent does to the Signal it is handed (nothing / rewrite content / empty it / forge other fields).  One run "
+        "in 250 is a capacity history: three early requests, a flood of N distinct trivial requests (N in 990..1100 "
+        "around the library's 1000-entry cache), then the early requests again")
 COMPONENTS = {"real": ["operon_ai.topology.loops.CoherentFeedForwardLoop", "operon_ai.state.metabolism.ATP_Store",
                        "operon_ai.core.types.ApprovalToken/ActionProtein/Signal",
                        "operon_ai.core.agent.BioAgent (real-agent family only, behind a recording spy)"],
@@ -80,6 +83,8 @@ ASSUMPTIONS = [
     "hash binding is sha256(prompt)[:16] as pinned by the repo's own test",
     "exactly-at-TTL is not asserted; staleness is demanded only strictly after the TTL",
     "a raising on_block / on_permit observer is the caller's own exception: the reply it was handed is judged as the reply",
+    "the request is the prompt string handed to run(); whatever the agents do to the Signal object does not change it",
+    "the cache may evict whenever it likes: a repeat is either a cache reply (must equal its original) or judged afresh",
     "threads family: pre-emption granularity is the source line of loops.py; the original of a cache reply is any fresh "
     "reply to the same prompt invoked before the cache reply returned; the `cached` flag is not judged (the code shares "
     "one result object between the original and its cache replies); staleness only from completed originals",
